@@ -13,11 +13,14 @@
     missingRequired ns     "Required params %q are not passed by the call: %v"      (the call node's text is not modelled)
     unusedLets ns          "{let} variables %q are not used."                       (leaveScope)
     dataRefNotFound k ps vs  "data ref %q not found. params: %v, let variables: %v" (visitKey; vs = every variable in scope)
+    loopFuncArg fn         "%v: the argument of %s must be the variable of an enclosing foreach or for loop"
+                                                                     (checkLoopFunc; fn = %s, the node's text is not modelled)
   and for Registry.Add (no template prefix):
     namespaceExpected      "expected namespace, found %v"
     namespaceRequired      "namespace required"
     bothParams             "template may not have both soydoc and header params specified"
     duplicate n            "template %v is defined more than once"
+    commandOutside         "command outside of a template: %v"                     (the node's text is not modelled)
 
   `Props/C13c.lean` proves that these walks accept exactly when `check` / `addAll` do, and the stability of
   the reported error under permutation of the files.
@@ -44,6 +47,7 @@ inductive ErrKind where
   | missingRequired (names : List Bytes)
   | unusedLets (names : List Bytes)
   | dataRefNotFound (key : Bytes) (params vars : List Bytes)
+  | loopFuncArg (fn : Bytes)
   deriving Repr, DecidableEq, Inhabited
 
 /-- the error of `CheckDataRefs`: "template NAME: …" -/
@@ -80,6 +84,14 @@ def checkLetE (name : Bytes) : CE Unit :=
 def declareE (name : Bytes) (isLet : Bool) : CE Unit :=
   modify fun st => { st with vars := st.vars ++ [{ name := name, isLet := isLet, used := false }] }
 
+/-- `checkLoopFunc` -/
+def checkLoopFuncE (name : Bytes) (args : ExprList) : CE Unit := do
+  match loopArg args with
+  | none => fail (.loopFuncArg name)
+  | some key =>
+    let st ← get
+    if isLoopVar st.vars key then pure () else fail (.loopFuncArg name)
+
 section
 variable (reg : List Template) (params : List Bytes)
 
@@ -109,7 +121,9 @@ mutual
       let outer := st.vars.length
       checkAccessesE acc
       leaveScopeE outer
-    | .func _ _ args => checkExprsE args
+    | .func _ name args => do
+      (if loopFn name then checkLoopFuncE name args else pure ())
+      checkExprsE args
     | .list _ items => checkExprsE items
     | .map _ items => checkMapItemsE items
     | .not _ a => checkExprE a
@@ -273,6 +287,7 @@ inductive RegErr where
   | namespaceRequired
   | bothParams
   | duplicate (name : Bytes)
+  | commandOutside
   deriving Repr, DecidableEq, Inhabited
 
 open SoyVerif.Model.Registry in
@@ -299,7 +314,8 @@ def addTemplatesE (fileName text nsName : Bytes) (nsAe : Autoescape) :
         let t : Tmpl := { name := name, params := docParams ++ hps, body := .mk bpos body, autoescape := ae,
                           nsName := nsName, nsAutoescape := nsAe, pos := pos, file := fileName, text := text }
         addTemplatesE fileName text nsName nsAe rest (some c) (reg ++ [t])
-    | _ => addTemplatesE fileName text nsName nsAe rest (some c) reg
+    | .namespace .. | .soyDoc .. | .rawText .. => addTemplatesE fileName text nsName nsAe rest (some c) reg
+    | _ => .error .commandOutside
 
 open SoyVerif.Model.Registry in
 def addE (reg : Reg) (f : SoyFile) : Except RegErr Reg :=
